@@ -315,16 +315,30 @@ Proof.
       * rewrite arr_cons_miss by (cbn; auto). reflexivity.
 Qed.
 
-Lemma deliver_all_any g emitfrom depth n x m :
+(* one turn of the loop of _emit: the hand-over, or the release alone (no call, nothing logged) for a child that left *)
+Lemma hand_any g emitfrom depth n x m d w s w' s' :
+  (forall d, EmitAny g (emitfrom d) (S depth)) -> length (sts w) = length g ->
+  is_down g n d = true ->
+  hand emitfrom g depth n x m (w, s) d = (w', s') ->
+  exists new, Seg g depth (SF g) w new w'.
+Proof.
+  intros HE Hlen Hdn H.
+  destruct (hand_cases emitfrom g depth n x m w s d) as [E|[_ [_ E]]]; rewrite E in H.
+  - eapply deliver_any; eauto.
+  - injection H as <- <-. exists []. destruct (release_frame w m 1) as [F1 F2].
+    eapply Seg_end_same; [apply Seg_nil; exact Hlen | exact F1 | exact F2].
+Qed.
+
+Lemma hand_all_any g emitfrom depth n x m :
   (forall d, EmitAny g (emitfrom d) (S depth)) ->
   forall l w s w' s', length (sts w) = length g -> (forall d, In d l -> is_down g n d = true) ->
-    fold_left (deliver emitfrom g depth n x m) l (w, s) = (w', s') ->
+    fold_left (hand emitfrom g depth n x m) l (w, s) = (w', s') ->
     exists new, Seg g depth (SF g) w new w'.
 Proof.
   intros HE. induction l as [|d t IH]; intros w s w' s' Hlen Hl H; cbn [fold_left] in H.
   - injection H as <- <-. exists []. apply Seg_nil. exact Hlen.
-  - destruct (deliver emitfrom g depth n x m (w, s) d) as [w1 s1] eqn:E1.
-    destruct (deliver_any g emitfrom depth n x m d w s w1 s1 HE Hlen (Hl d (or_introl eq_refl)) E1) as [n1 S1].
+  - destruct (hand emitfrom g depth n x m (w, s) d) as [w1 s1] eqn:E1.
+    destruct (hand_any g emitfrom depth n x m d w s w1 s1 HE Hlen (Hl d (or_introl eq_refl)) E1) as [n1 S1].
     destruct (IH w1 s1 w' s' (sg_len _ _ _ _ _ _ S1) (fun d' Hd' => Hl d' (or_intror Hd')) H) as [n2 S2].
     exists (n1 ++ n2). eapply Seg_app; eauto.
 Qed.
@@ -335,7 +349,7 @@ Proof.
   - injection H as <- <-. exists []. apply Seg_nil. exact Hlen.
   - destruct (retain_frame w my (Z.of_nat (length (downs g w n)))) as [F1 F2].
     assert (Hlen1 : length (sts (retain w my (Z.of_nat (length (downs g w n))))) = length g) by (rewrite F1; exact Hlen).
-    destruct (deliver_all_any g (fun d => push fuel g (S depth) d) depth n y my (fun d => IH (S depth) d)
+    destruct (hand_all_any g (fun d => push fuel g (S depth) d) depth n y my (fun d => IH (S depth) d)
                 (downs g w n) _ SOk w' s Hlen1 (fun dd Hdd => downs_is_down _ _ _ _ Hdd) H) as [new Sg].
     exists new. eapply Seg_start_same; [exact Sg | symmetry; exact F2 |]. intros d _. symmetry. apply nst_retain.
 Qed.
@@ -654,6 +668,9 @@ Proof. induction acts as [|a t IH]; intros w; [reflexivity|]. cbn [fold_left]. u
 Lemma sfuel_deliver emitfrom g depth n x m : forall l w,
   fold_left (deliver emitfrom g depth n x m) l (w, SFuel) = (w, SFuel).
 Proof. induction l as [|d t IH]; intros w; [reflexivity|]. cbn [fold_left]. unfold deliver at 2. cbn. apply IH. Qed.
+Lemma sfuel_hand emitfrom g depth n x m : forall l w,
+  fold_left (hand emitfrom g depth n x m) l (w, SFuel) = (w, SFuel).
+Proof. induction l as [|d t IH]; intros w; [reflexivity|]. cbn [fold_left]. rewrite hand_stop by reflexivity. apply IH. Qed.
 
 (* actions that neither emit nor write leave states, log and status alone *)
 Lemma actions_quiet emit coro d : forall q w s w' s',
@@ -887,26 +904,44 @@ Proof.
     + rewrite arr_cons_miss by (cbn; exact Hne). cbn. rewrite app_nil_r. reflexivity.
 Qed.
 
-(* deliveries that are not on edge (u, d0) *)
-Lemma deliver_all_E emitfrom depth n x m :
+(* one turn of the loop of _emit: the hand-over, or the release alone for a child that left since the snapshot *)
+Lemma hand_E emitfrom depth n x m d w s w' s' :
+  (forall d, EmitAny g (emitfrom d) (S depth)) -> (forall d, EmitE (emitfrom d) d) ->
+  WF g w -> is_down g n d = true ->
+  hand emitfrom g depth n x m (w, s) d = (w', s') -> s' <> SFuel ->
+  exists new, ESeg w new w' (if status_go s && attached g w n d && ((n =? u) && (d =? d0)) then [(x, m)] else []).
+Proof.
+  intros HA HE Hwf Hdn H Hs'.
+  destruct (attached g w n d) eqn:Ha.
+  - rewrite hand_attached in H by exact Ha. rewrite andb_true_r. eapply deliver_E; eauto.
+  - rewrite andb_false_r. cbn [andb].
+    destruct (status_go s) eqn:Go.
+    + rewrite hand_gone in H by assumption. injection H as <- <-. exists [].
+      destruct (release_frame w m 1) as [F1 F2].
+      eapply ESeg_end_same; [apply ESeg_nil; exact Hwf | exact F1 | exact F2].
+    + rewrite hand_stop in H by exact Go. injection H as <- <-. exists []. apply ESeg_nil. exact Hwf.
+Qed.
+
+(* turns that are not on edge (u, d0) *)
+Lemma hand_all_E emitfrom depth n x m :
   (forall d, EmitAny g (emitfrom d) (S depth)) -> (forall d, EmitE (emitfrom d) d) ->
   forall l w s w' s', WF g w -> (forall d, In d l -> is_down g n d = true) ->
     n <> u \/ ~ In d0 l ->
-    fold_left (deliver emitfrom g depth n x m) l (w, s) = (w', s') -> s' <> SFuel ->
+    fold_left (hand emitfrom g depth n x m) l (w, s) = (w', s') -> s' <> SFuel ->
     exists new, ESeg w new w' [].
 Proof.
   intros HA HE. induction l as [|d t IH]; intros w s w' s' Hwf Hl Hoff H Hs'; cbn [fold_left] in H.
   - injection H as <- <-. exists []. apply ESeg_nil. exact Hwf.
-  - destruct (deliver emitfrom g depth n x m (w, s) d) as [w1 s1] eqn:E1.
+  - destruct (hand emitfrom g depth n x m (w, s) d) as [w1 s1] eqn:E1.
     assert (Hs1 : s1 <> SFuel).
-    { intros ->. rewrite sfuel_deliver in H. injection H as _ <-. apply Hs'. reflexivity. }
+    { intros ->. rewrite sfuel_hand in H. injection H as _ <-. apply Hs'. reflexivity. }
     assert (Hdn : is_down g n d = true) by (apply Hl; left; reflexivity).
-    destruct (deliver_E emitfrom depth n x m d w s w1 s1 HA HE Hwf Hdn E1 Hs1) as [n1 En1].
-    replace (status_go s && ((n =? u) && (d =? d0))) with false in En1.
+    destruct (hand_E emitfrom depth n x m d w s w1 s1 HA HE Hwf Hdn E1 Hs1) as [n1 En1].
+    replace (status_go s && attached g w n d && ((n =? u) && (d =? d0))) with false in En1.
     2:{ symmetry. destruct Hoff as [Hn|Hn].
         - apply Nat.eqb_neq in Hn. rewrite Hn. apply andb_false_r.
         - destruct (Nat.eqb_spec d d0) as [->|]; [exfalso; apply Hn; left; reflexivity|]. rewrite !andb_false_r. reflexivity. }
-    destruct (deliver_any g emitfrom depth n x m d w s w1 s1 HA (WF_len _ Hwf) Hdn E1) as [n1' S1].
+    destruct (hand_any g emitfrom depth n x m d w s w1 s1 HA (WF_len _ Hwf) Hdn E1) as [n1' S1].
     pose proof (Seg_state_of _ _ _ _ _ _ n1 u S1 Hu (proj1 En1)) as Hst.
     assert (Hoff' : n <> u \/ ~ In d0 t) by (destruct Hoff as [?|Hn]; [left; assumption | right; intros X; apply Hn; right; exact X]).
     destruct (IH w1 s1 w' s' (proj1 (proj2 En1)) (fun d' Hd' => Hl d' (or_intror Hd')) Hoff' H Hs') as [n2 En2].
@@ -924,19 +959,22 @@ Proof.
     assert (Hdl : forall dd, In dd (downs g w n) -> is_down g n dd = true) by (intros dd Hdd; eapply downs_is_down; eauto).
     destruct (Nat.eqb_spec n u) as [->|Hne].
     + rewrite (downs_static w Hwf), Hsd in H, Hdl. cbn [fold_left] in H.
-      destruct (deliver (fun d => push fuel g (S depth) d) g depth u y my (w0, SOk) d0) as [w1 s1] eqn:E1.
+      destruct (hand (fun d => push fuel g (S depth) d) g depth u y my (w0, SOk) d0) as [w1 s1] eqn:E1.
       assert (Hs1 : s1 <> SFuel).
-      { intros ->. rewrite sfuel_deliver in H. injection H as _ <-. apply Hs. reflexivity. }
-      destruct (deliver_E _ depth u y my d0 w0 SOk w1 s1 HA (fun d => IH (S depth) d) Hwf0
+      { intros ->. rewrite sfuel_hand in H. injection H as _ <-. apply Hs. reflexivity. }
+      (* the first child of the snapshot is still attached when its turn comes: nothing has happened yet *)
+      assert (Ha0 : attached g w0 u d0 = true).
+      { apply attached_In. unfold w0. rewrite downs_retain, (downs_static w Hwf), Hsd. left. reflexivity. }
+      destruct (hand_E _ depth u y my d0 w0 SOk w1 s1 HA (fun d => IH (S depth) d) Hwf0
                   (Hdl d0 (or_introl eq_refl)) E1 Hs1) as [n1 En1].
-      rewrite !Nat.eqb_refl in En1. cbn [status_go andb] in En1.
-      destruct (deliver_any g _ depth u y my d0 w0 SOk w1 s1 HA (WF_len _ Hwf0) (Hdl d0 (or_introl eq_refl)) E1) as [n1' S1].
+      rewrite Ha0, !Nat.eqb_refl in En1. cbn [status_go andb] in En1.
+      destruct (hand_any g _ depth u y my d0 w0 SOk w1 s1 HA (WF_len _ Hwf0) (Hdl d0 (or_introl eq_refl)) E1) as [n1' S1].
       pose proof (Seg_state_of _ _ _ _ _ _ n1 u S1 Hu (proj1 En1)) as Hst.
-      destruct (deliver_all_E _ depth u y my HA (fun d => IH (S depth) d) rest0 w1 s1 w' s
+      destruct (hand_all_E _ depth u y my HA (fun d => IH (S depth) d) rest0 w1 s1 w' s
                   (proj1 (proj2 En1)) (fun d' Hd' => Hdl d' (or_intror Hd')) (or_intror d0_not_in_rest) H Hs) as [n2 En2].
       exists (n1 ++ n2). eapply ESeg_start_same; [eapply ESeg_app; eauto | symmetry; exact F2 |].
       symmetry. apply nst_retain.
-    + destruct (deliver_all_E _ depth n y my HA (fun d => IH (S depth) d) (downs g w n) w0 SOk w' s
+    + destruct (hand_all_E _ depth n y my HA (fun d => IH (S depth) d) (downs g w n) w0 SOk w' s
                   Hwf0 Hdl (or_introl Hne) H Hs) as [new En].
       exists new. eapply ESeg_start_same; [exact En | symmetry; exact F2 |]. symmetry. apply nst_retain.
 Qed.
